@@ -47,6 +47,7 @@ def spec(name, **kw):
     kw.setdefault("step_limit", None)
     kw.setdefault("bounds", None)
     kw.setdefault("extra", [])
+    kw.setdefault("big", False)
     kw["name"] = name
     SPECS[name] = kw
     return kw
@@ -169,8 +170,23 @@ spec("user_only",
      sens={(1, 0): 3, (1, 1): 4}, step_limit=4)
 
 
+# --- a wide subnet (two-digit host ids) with deny-lists naming two-digit sources; too large for exhaustive
+#     exploration, used for recorded runs and as a format document
+spec("wide",
+     subnets=[12, 1], topology=topo(3, [(0, 1), (1, 2)]),
+     os=["linux"], services=["ssh", "ftp"], processes=["tomcat"],
+     hosts=dict([((1, i), H("linux", ["ssh"] if i % 2 else ["ftp"], ["tomcat"] if i % 3 == 0 else []))
+                 for i in range(12)]
+                + [((2, 0), H("linux", ["ssh", "ftp"], ["tomcat"],
+                              deny={(1, 10): ["ftp"], (1, 11): ["ssh"], (1, 1): ["ssh"]}))]),
+     exploits={"e_ssh": E("ssh", "linux", 0.9, 1, U), "e_ftp": E("ftp", None, 1.0, 1, U)},
+     privescs={"pe_tomcat": P("tomcat", None, 1.0, 1, R)},
+     fw={(0, 1): ["ssh", "ftp"], (1, 0): [], (1, 2): ["ssh", "ftp"], (2, 1): []},
+     sens={(2, 0): 10}, big=True)
+
+
 def names():
-    return list(SPECS.keys())
+    return [n for n, sp in SPECS.items() if not sp.get("big")]
 
 
 def cs_of(sp):
